@@ -70,4 +70,11 @@ func (pConn *PFCPConn) RemoveSession(session PFCPSession) {
 	if err := pConn.store.DeleteSession(session.localSEID); err != nil {
 		logger.PfcpLog.Errorf("failed to delete PFCP session from store: %v", err)
 	}
+
+	// the tunnel endpoint IDs the UP chose for this session can be handed out again
+	for _, p := range session.pdrs {
+		if p.UPAllocateFteid {
+			pConn.upf.fteidGenerator.FreeID(p.tunnelTEID)
+		}
+	}
 }
